@@ -19,6 +19,19 @@ def repeat(a, lo, hi):
     return seq(out)
 def lit(ch): return ('cls', False, [(ord(ch), ord(ch))])
 
+_RANGE_CACHE = {}
+def _ranges_where(pred, key=None):
+    """code point ranges on which pred(chr(c)) holds (computed once per predicate source)"""
+    key = key or (pred.__code__.co_code, pred.__code__.co_names, pred.__code__.co_consts)
+    if key not in _RANGE_CACHE:
+        out = []; start = None
+        for c in range(MAXCP + 2):
+            ok = c <= MAXCP and not (0xD800 <= c <= 0xDFFF) and pred(chr(c))
+            if ok and start is None: start = c
+            if not ok and start is not None: out.append((start, c - 1)); start = None
+        _RANGE_CACHE[key] = out
+    return list(_RANGE_CACHE[key])
+
 class Parser:
     def __init__(self, s, flavour):
         self.s = s; self.i = 0; self.flavour = flavour; self.anchored_end = False
@@ -70,13 +83,22 @@ class Parser:
         return lit(c)
     def escape(self, in_class):
         c = self.take()
-        if c == 'd': return ('cls', False, [(48, 57)])
-        if c == 's': return ('cls', False, [(9, 10), (13, 13), (32, 32)])
+        # Python's re on str patterns: \d = Unicode decimal digits (Nd), \s = Unicode white space, \w = Unicode alphanumerics and '_'
+        # XML Schema: \d = \p{Nd}, \s = [#x20\t\n\r]
+        if c == 'd': return ('cls', False, _ranges_where(lambda ch: ch.isdecimal()))
+        if c == 's': return ('cls', False, _ranges_where(lambda ch: ch.isspace()) if self.flavour == 'python' else [(9, 10), (13, 13), (32, 32)])
+        if c == 'w' and self.flavour == 'python': return ('cls', False, _ranges_where(lambda ch: ch.isalnum() or ch == '_'))
+        if c in 'DSW' and self.flavour == 'python':
+            pos = self.escape_lower(c.lower()); return ('cls', True, pos[2])
         if c == 't': return lit('\t')
         if c == 'n': return lit('\n')
         if c == 'r': return lit('\r')
         if c.isalnum(): raise ValueError('relib: escape \\%s is not modelled (%r)' % (c, self.s))
         return lit(c)
+    def escape_lower(self, c):
+        if c == 'd': return ('cls', False, _ranges_where(lambda ch: ch.isdecimal()))
+        if c == 's': return ('cls', False, _ranges_where(lambda ch: ch.isspace()))
+        return ('cls', False, _ranges_where(lambda ch: ch.isalnum() or ch == '_'))
     def charclass(self):
         neg = False
         if self.peek() == '^': self.take(); neg = True
